@@ -540,6 +540,8 @@ pub struct ExploreCfg {
     pub thorough: bool,
     pub seed: u64,
     pub recheck_every: u64,
+    /// keep (choices, observation hash) of every case (for cross-build comparisons)
+    pub record_obs: bool,
 }
 
 #[derive(Clone, Debug)]
@@ -573,6 +575,7 @@ pub struct ExploreResult {
     pub rechecked: u64,
     pub flaky_crashes: u64,
     pub wall_s: f64,
+    pub obs_by_case: Vec<(String, u64)>,
 }
 
 struct Shared {
@@ -717,6 +720,7 @@ pub fn explore(cfg: &ExploreCfg) -> ExploreResult {
     res.capped = cb < cfg.bound as i64;
     res.violations.sort_by(|a, b| (a.choices.len(), &a.choices, &a.sig).cmp(&(b.choices.len(), &b.choices, &b.sig)));
     res.samples.sort();
+    res.obs_by_case.sort();
     res.wall_s = t0.elapsed().as_secs_f64();
     res
 }
@@ -973,6 +977,10 @@ fn handle_reply(
     g.res.points += r.npoints as u64;
     g.res.max_points = g.res.max_points.max(r.npoints);
     g.obs.insert(r.obs);
+    if cfg.record_obs {
+        let key = spec.rsplit('|').next().unwrap_or("").to_string();
+        g.res.obs_by_case.push((key, r.obs));
+    }
     if r.nontrivial {
         g.obs_nt.insert(r.obs);
     }
